@@ -7,6 +7,7 @@ package c06
 
 import (
 	"bytes"
+	"errors"
 	"fmt"
 	"os"
 	"regexp"
@@ -43,7 +44,7 @@ type caseRec struct {
 
 var tPrepare, tClose, tCase, tSnap, tNew vk.Counter
 
-var extGroups = map[string]bool{"header-batch": true, "deep-ahead": true, "restart": true, "paged": true, "pool-witness": true, "pool-kinds": true, "pool-replay": true, "pool-solvency": true, "pool-evict": true}
+var extGroups = map[string]bool{"header-batch": true, "deep-ahead": true, "restart": true, "paged": true, "pool-witness": true, "pool-kinds": true, "pool-replay": true, "pool-solvency": true, "pool-evict": true, rsGroup: true}
 
 type viol struct {
 	what string // stable first part of the key
@@ -129,17 +130,25 @@ func sameBlock(a *block.Block, bb []byte) bool {
 // runCase executes one (state, corruption, path) on a fresh replica.
 func (c *stateCtx) runCase(it item, path string) (o outcome) {
 	base := c.rec(it, path)
+	var d *delivery
 	bad := func(what, errText string, diff []string, note string) {
 		r := base
+		if d != nil && d.RS != nil {
+			note = strings.TrimSpace(note + fmt.Sprintf(" [delivered to a replica that was restarted (%s store, graceful stop + start on the same store); %d valid block(s) of the history were added between the start and this delivery]", d.RS.Backend, d.RS.After))
+		}
 		r.What, r.Err, r.Diff, r.Note, r.Class = what, errText, diff, note, o.class
 		o.viols = append(o.viols, viol{what: what, rec: r})
 	}
-	var d *delivery
 	if err := chainx.Try(func() { d = it.Make(c) }); err != nil {
 		o.harness = "menu item cannot be built: " + err.Error()
 		return
 	}
 	if d == nil {
+		o.class, o.result = "n/a", "n/a"
+		return
+	}
+	if path == "header" && d.RS != nil && !c.fam.SRIH && !rsThorough {
+		// quick tier: restarted header deliveries only where headers carry state roots
 		o.class, o.result = "n/a", "n/a"
 		return
 	}
@@ -191,15 +200,46 @@ func (c *stateCtx) runCase(it item, path string) (o outcome) {
 		o.class = "i" // relative to the tip after the first delivery
 	}
 	t0 := time.Now()
-	n, err := c.prepare()
+	var n *chainx.Node
+	rsSkip := func(why string) {
+		// the restart itself went wrong: not a matter of this property, the case is counted and skipped
+		rsCount(&rsStats.problems, why)
+		fmt.Printf("note: %s %s/%s: %s\n", c.label(), it.ID, path, why)
+		o.class, o.result, o.errText = "n/a", "n/a", "restart problem"
+		o.viols = nil
+	}
+	var rh *rsHandle
+	if d.RS != nil {
+		rh, err = c.prepareRestarted(c.mode, d.RS)
+		n = rh.n
+	} else {
+		n, err = c.prepare()
+	}
 	tPrepare.Add(int(time.Since(t0).Microseconds()))
 	if err != nil {
-		o.harness = "prepare: " + err.Error()
+		if rh != nil {
+			rh.close()
+		}
+		var rp *rsProblem
+		var rr *rsRefused
+		switch {
+		case errors.As(err, &rp):
+			rsSkip(rp.msg)
+		case errors.As(err, &rr):
+			bad("valid-block-rejected-after-restart", rr.msg, nil, "the block is part of the state's history: the reference replica and every replica that was not restarted have accepted it")
+			o.class, o.result = "restart", "history-block-refused"
+		default:
+			o.harness = "prepare: " + err.Error()
+		}
 		return
 	}
 	defer func() {
 		t1 := time.Now()
-		n.Close()
+		if rh != nil {
+			rh.close()
+		} else {
+			n.Close()
+		}
 		tClose.Add(int(time.Since(t1).Microseconds()))
 		tCase.Add(int(time.Since(t0).Microseconds()))
 	}()
@@ -211,8 +251,24 @@ func (c *stateCtx) runCase(it item, path string) (o outcome) {
 		return
 	}
 	if df := ctl.pre.diff(pre, true); len(df) != 0 {
-		o.harness = "replica differs from the control before the delivery: " + strings.Join(df, "; ")
-		return
+		if d.RS == nil {
+			o.harness = "replica differs from the control before the delivery: " + strings.Join(df, "; ")
+			return
+		}
+		// The restart changed what the getters report. That alone is not judged here (C02); the case goes
+		// on with the started node's own state as the baseline of "nothing changes" (flushed now), while
+		// the predicate keeps judging the candidate by the chain and "the valid block gives the control's
+		// state" keeps the control that never restarted.
+		why := "observable state after the restart differs from the replica that never restarted: " + strings.Join(df, "; ")
+		rsCount(&rsStats.problems, why)
+		fmt.Printf("note: %s %s/%s: %s\n", c.label(), it.ID, path, why)
+		if err := n.Persist(); err != nil {
+			rsSkip("flush after the restart failed: " + err.Error())
+			return
+		}
+		own := *ctl
+		own.pre, own.dump = pre, rawDump(n.Store)
+		ctl = &own
 	}
 	deliver := func(b *block.Block) (err error) {
 		o.execs++
@@ -254,7 +310,7 @@ func (c *stateCtx) runCase(it item, path string) (o outcome) {
 		return true
 	}
 	if d.Seq == "ahead" || d.Seq == "mirror" {
-		c.runAhead(n, d, blk, v, pre, ctl, &o, bad)
+		c.runAhead(n, rh, d, blk, v, pre, ctl, &o, bad)
 		return
 	}
 	if d.Seq == "twice" {
@@ -425,7 +481,7 @@ func (c *stateCtx) runCase(it item, path string) (o outcome) {
 // whose only defect is its previous state root counts as signed and linked:
 // the node cannot know better before the predecessor block is processed. In
 // that situation (and only then) the valid b may be refused as well.
-func (c *stateCtx) runAhead(n *chainx.Node, d *delivery, x *block.Block, v verdict, pre snap, ctl *control, o *outcome, bad func(what, errText string, diff []string, note string)) {
+func (c *stateCtx) runAhead(n *chainx.Node, rh *rsHandle, d *delivery, x *block.Block, v verdict, pre snap, ctl *control, o *outcome, bad func(what, errText string, diff []string, note string)) {
 	try := func(f func() error) (err error) {
 		o.execs++
 		if perr := chainx.Try(func() { err = f() }); perr != nil {
@@ -471,6 +527,34 @@ func (c *stateCtx) runAhead(n *chainx.Node, d *delivery, x *block.Block, v verdi
 	}
 	hdrKeys := func(k string) bool {
 		return headerKey(k, bb.Hash()) || (linked && headerKey(k, second.Hash()))
+	}
+	if d.RS != nil && d.RS.Mid {
+		// round 4: the node is restarted between the header batch and the blocks
+		err := rh.restartMid()
+		n = rh.n
+		var rp *rsProblem
+		if errors.As(err, &rp) {
+			rsCount(&rsStats.problems, rp.msg)
+			fmt.Printf("note: %s: %s\n", c.label(), rp.msg)
+			o.class, o.result, o.errText, o.viols = "n/a", "n/a", "restart problem", nil
+			return
+		} else if err != nil {
+			o.harness = "restart: " + err.Error()
+			return
+		}
+		sr, err := takeSnap(n, c.maxID)
+		if err != nil {
+			bad("unreadable-after-restart", err.Error(), nil, "")
+			return
+		}
+		if df := s1.diff(sr, true); len(df) != 0 {
+			// not judged here (C02); the case goes on from what the started node reports
+			why := "observable state after the restart between header batch and blocks differs from the one before it: " + strings.Join(df, "; ")
+			rsCount(&rsStats.problems, why)
+			fmt.Printf("note: %s: %s\n", c.label(), why)
+			s1 = sr
+			secondRecorded = s1.HdrHash == second.Hash().StringLE()
+		}
 	}
 	if d.Seq == "mirror" {
 		xerr := try(func() error { return n.BC.AddBlock(x) })
@@ -625,7 +709,9 @@ func quickStates() []stateSpec {
 		{fam: "single", hist: nil, mode: "bystander+hdr-known"},
 		{fam: "single", hist: []string{"gas-transfer"}, mode: "pooled-own+hdr-known+flushed"},
 		{fam: "single", hist: []string{anchorName, "empty"}, mode: "plain"},
-		{fam: "single", hist: []string{"block-account3"}, mode: "bystander+hdr-known"},
+		// round 4: was bystander+hdr-known, where every re-signed candidate ends at the hash comparison with the
+		// known header and the blocked-sender rule was never reached in this tier
+		{fam: "single", hist: []string{"block-account3"}, mode: "pooled-own+flushed"},
 		{fam: "single-srih", hist: nil, mode: "pooled-own+flushed"},
 		{fam: "single-srih", hist: []string{"u-storage2", "policy-fee+tx"}, mode: "plain"},
 		{fam: "single-srih", hist: []string{"vote1"}, mode: "pooled-own+hdr-known+flushed"},
@@ -684,6 +770,7 @@ func TestCheck(t *testing.T) {
 	vk.UseT(t)
 	r := vk.Start("C06", "model_checking", 210*time.Second, 24*time.Minute)
 	defer vk.CleanScratch()
+	rsThorough = r.Thorough()
 	debug.SetGCPercent(800) // thousands of short-lived replicas: trade memory for collector time
 	if r.Replay != "" {
 		replay(r)
@@ -847,13 +934,22 @@ func TestCheck(t *testing.T) {
 		path string
 	}
 	var jobs []job
-	for _, c := range states {
-		for _, it := range its {
-			jobs = append(jobs, job{c, it, "block"})
-		}
-		for _, it := range its {
-			if it.Hdr {
-				jobs = append(jobs, job{c, it, "header"})
+	// the restarted menu (round 4) comes after everything else: when the deadline of a tier stops the run, the
+	// families of the earlier rounds are not the ones that lose states
+	// (thorough tier only; in the quick tier, which is far from its deadline on an idle machine, the cases of a
+	// state stay together)
+	for _, late := range []bool{false, true} {
+		for _, c := range states {
+			sel := func(it item) bool { return !r.Thorough() && !late || r.Thorough() && (it.Group == rsGroup) == late }
+			for _, it := range its {
+				if sel(it) {
+					jobs = append(jobs, job{c, it, "block"})
+				}
+			}
+			for _, it := range its {
+				if it.Hdr && sel(it) {
+					jobs = append(jobs, job{c, it, "header"})
+				}
 			}
 		}
 	}
@@ -874,6 +970,9 @@ func TestCheck(t *testing.T) {
 	mismatch := map[string]string{}
 	grpOutcomes := map[string]map[string]int{} // group -> outcome class -> cases (families of the extension round)
 	naWhy := map[string]int{} // extension families: why a case was not applicable at a state
+	rsByVariant := map[string]int{} // round 4: restarted cases by rs<After>.<backend>/<path>/<base group> and by family
+	rsAccInvalidPSR := 0
+	rsBaseRun := map[string]int{} // base item -> restarted cases
 	var execs, cases, decodeFails vk.Counter
 	r.Parallel(len(jobs), func(i int) {
 		mu.Lock()
@@ -915,6 +1014,16 @@ func TestCheck(t *testing.T) {
 		}
 		if o.result == "decode-failed" {
 			decodeFails.Inc()
+		}
+		if j.it.Group == rsGroup {
+			if p := strings.SplitN(j.it.ID, ".", 4); len(p) == 4 {
+				rsByVariant[p[0]+"."+p[1]+"/"+j.path+"/"+p[2]]++
+				rsByVariant["family:"+j.c.fam.Name+"/"+p[0]]++
+				rsBaseRun[p[2]+"."+p[3]]++
+				if strings.Contains(j.it.ID, "PrevStateRoot") && o.result == "rejected" {
+					rsAccInvalidPSR++
+				}
+			}
 		}
 		if j.path == "block" {
 			deliveredBy[j.it.ID]++
@@ -976,7 +1085,7 @@ func TestCheck(t *testing.T) {
 	}
 	var allNA []string
 	for _, it := range its {
-		if deliveredBy[it.ID] == 0 {
+		if deliveredBy[it.ID] == 0 && it.Group != rsGroup {
 			allNA = append(allNA, it.ID)
 		}
 	}
@@ -1013,7 +1122,41 @@ func TestCheck(t *testing.T) {
 		}
 		r3[g+"/cases"], r3[g+"/outcomes"] = n, len(grpOutcomes[g])
 	}
+	rs4 := rsCoverage(grpOutcomes[rsGroup], rsByVariant)
+	{
+		var never []string
+		seenBase := map[string]bool{}
+		for _, it := range its {
+			if it.Group != rsGroup {
+				continue
+			}
+			if p := strings.SplitN(it.ID, ".", 3); len(p) == 3 && !seenBase[p[2]] {
+				seenBase[p[2]] = true
+				if rsBaseRun[p[2]] == 0 {
+					never = append(never, p[2])
+				}
+			}
+		}
+		rs4["base_items"] = len(seenBase)
+		nr, np := 0, 0
+		for _, v := range rs4["restarts"].(map[string]int) {
+			nr += v
+		}
+		for _, v := range rs4["restart_problems(must be empty)"].(map[string]int) {
+			np += v
+		}
+		rs4["restarts_total"], rs4["restart_problems_total"] = nr, np
+		rs4["base_items_never_applicable_at_a_restarted_state"] = never
+	}
 	r.Finish(map[string]any{
+		"round4_restart_menu_cases":                rs4["cases"],
+		"round4_restart_menu_distinct_outcomes":    rs4["distinct_outcomes"],
+		"round4_restart_menu_prev_state_root_corruptions_rejected": rsAccInvalidPSR,
+		"round4_restart_menu":                      rs4,
+		"round4_restart_menu_base_items":           rs4["base_items"],
+		"round4_restarts_performed":                rs4["restarts_total"],
+		"round4_restart_problems_must_be_0":        rs4["restart_problems_total"],
+		"round4_restart_variants":                  "first / second block after the start x {MemoryStore, BoltDB, LevelDB}; restart between header batch and blocks; restart with a header chain across a hash-list page",
 		"round3_pool_replay_cases":                 r3["pool-replay/cases"],
 		"round3_pool_replay_distinct_outcomes":     r3["pool-replay/outcomes"],
 		"round3_pool_solvency_cases":               r3["pool-solvency/cases"],
@@ -1062,6 +1205,7 @@ func TestCheck(t *testing.T) {
 		"pool histories of round 3: the three views of the pool (GetVerifiedTransactions, ContainsKey/TryGetValue for every history transaction, Count) are compared after every pool/relay step and every accepted block; a disagreement alone is no violation of this property: it starts a probe (block carrying that transaction alone, then the same once more, against a fresh reference replica with the same chain) that is judged by the accepted-invalid-block / verdict-depends-on-mempool-history oracles",
 		"Notary-paid transactions (sender = native Notary, fees from the second signer's deposit): the predicate demands the NotaryAssisted attribute, scope None, exactly two signers, one signature of a node of the latest P2PNotary designation, deposit >= fees of the transaction, attribute fee (NKeys+1) x Policy fee, and deposit >= the sum of the depositor's transactions in a block; the verification cost of the contract witness is measured once on the reference replica and scaled linearly with the base execution fee; deposit expiry (till) plays no role in these histories",
 		"pool-evict/capacity histories run on a node whose own MemPoolSize is 2 (node-local setting) and without the pool content of the state's mode",
+		"restart-menu (round 4): an ordinary menu case on a replica that was stopped gracefully and started again on the same store (MemoryStore surviving Close, or a BoltDB / LevelDB file closed and opened again) before the delivery; After=0: the candidate is the first block / header batch the started node sees, After=1: the last history block is delivered first; for the hdr-known modes the headers running ahead of the blocks are delivered BEFORE the restart; pool and flush of the mode are applied after it; predicate, classes, control replica (one that never restarted) and oracle are those of the base item. A restart that fails or changes the observable state is not judged here (C02): the case is skipped and counted in round4_restart_menu.restart_problems, which must be empty",
 	})
 }
 
